@@ -20,11 +20,11 @@
    wrappers, refutations (with witnesses replayed by harness/c06.py) where the code
    misreports or crashes, conservation where it is structural or follows from the
    generated right-hand sides.  Not proved (checked numerically by the harness):
-   bounds and monotonicity along the curve (flow lift cited, DESIGN 3.7); the pair
-   counts of explicit sets are stated against the count over G.edges()
-   (`count_edge_types_st` of the requested status), not yet against the order-free
-   count `IC.pairs` (handshake lemma missing) - hence the suffix _partial there. *)
-From EoNV Require Import Prelude Graph Aux Vec IC Wrappers VecP ICP Rhs ICConserve.
+   bounds and monotonicity along the curve (flow lift cited, DESIGN 3.7).  The pair
+   counts of a request (`req_pairs`) are, for explicit sets, the counts over
+   G.edges(); theorem C06_req_pairs_are_ordered_pair_counts (handshake lemma) shows
+   they are the order-free numbers of ordered adjacent S-S, S-I, I-I pairs. *)
+From EoNV Require Import Prelude Graph Aux Vec IC Wrappers VecP ICP ICHand Rhs ICConserve.
 
 (* ---------- non-vacuity of the hypotheses ---------- *)
 Example C06_wf_example :
@@ -44,6 +44,24 @@ Print Assumptions C06_sum_kNk_is_degree_sum.
 Theorem C06_class_counts_partition : forall g p, vsum (byclass g p) == cnt p (gnodes g).
 Proof. exact byclass_sum. Qed.
 Print Assumptions C06_class_counts_partition.
+
+(* handshake over G.edges() as networkx enumerates it; sum of degrees = 2|E| *)
+Theorem C06_handshake :
+  forall g f, wf_ugraph g = true ->
+    esum g (fun u v => f u v + f v u) == sumQ (map (fun u => sumQ (map (fun v => f u v) (gadj g u))) (gnodes g)).
+Proof. exact handshake. Qed.
+Print Assumptions C06_handshake.
+Theorem C06_degree_sum_is_2E : forall g, wf_ugraph g = true -> degsum g == 2 * gsize g.
+Proof. exact degsum_twice_size. Qed.
+Print Assumptions C06_degree_sum_is_2E.
+(* _count_edge_types_ returns the numbers of ORDERED adjacent S-S, S-I and I-I pairs (documented: SS and II
+   count every edge twice, SI once), independently of node and edge insertion order *)
+Theorem C06_req_pairs_are_ordered_pair_counts :
+  forall g st, wf_ugraph g = true ->
+    let '(ss, si, ii) := count_edge_types_st g st in
+    ss == pairs g (isS st) (isS st) /\ si == pairs g (isS st) (isI st) /\ ii == pairs g (isI st) (isI st).
+Proof. exact count_edge_types_pairs. Qed.
+Print Assumptions C06_req_pairs_are_ordered_pair_counts.
 
 (* ---------- the builders accept every consistent request and return the requested classes ---------- *)
 Theorem C06_accepts_initialize_node_status :
@@ -106,8 +124,8 @@ Theorem row0_SIR_heterogeneous_meanfield_from_graph_full_refuted :
 Proof. exact full_SIR_hetmf_refuted. Qed.
 Print Assumptions row0_SIR_heterogeneous_meanfield_from_graph_full_refuted.
 
-(* pair counts of explicit sets stated against the count over G.edges(): _partial *)
-Theorem row0_SIS_compact_pairwise_from_graph_partial :
+(* pair counts: req_pairs, see C06_req_pairs_are_ordered_pair_counts *)
+Theorem row0_SIS_compact_pairwise_from_graph :
   forall g rq full sv, wf_ugraph g = true -> wf_req g false rq = true -> solver_ok sv ->
   exists out S I, SIS_compact_pairwise_from_graph g rq full sv = Ok out /\
     lookup nS out = Some (Sc S) /\ lookup nI out = Some (Sc I) /\
@@ -118,8 +136,8 @@ Theorem row0_SIS_compact_pairwise_from_graph_partial :
        Sk 0%nat = req_Sk g rq /\ veq (Ik 0%nat) (req_Ik g rq) /\
        SI 0%nat == pSI (req_pairs g rq) /\ SS 0%nat == pSS (req_pairs g rq) /\ II 0%nat == pII (req_pairs g rq)).
 Proof. exact row0_SIS_cp. Qed.
-Print Assumptions row0_SIS_compact_pairwise_from_graph_partial.
-Theorem row0_SIS_compact_effective_degree_from_graph_partial :
+Print Assumptions row0_SIS_compact_pairwise_from_graph.
+Theorem row0_SIS_compact_effective_degree_from_graph :
   forall g rq full sv, wf_ugraph g = true -> wf_req g false rq = true -> solver_ok sv ->
   exists out S I, SIS_compact_effective_degree_from_graph g rq full sv = Ok out /\
     lookup nS out = Some (Sc S) /\ lookup nI out = Some (Sc I) /\ S 0%nat == reqS_n g rq /\ I 0%nat == reqI_n g rq.
@@ -127,7 +145,7 @@ Proof.
   intros g rq full sv WG W OK. destruct (row0_SIS_cp g rq full sv WG W OK) as (out & S & I & H1 & H2 & H3 & H4 & H5 & _).
   exists out, S, I. auto.
 Qed.
-Print Assumptions row0_SIS_compact_effective_degree_from_graph_partial.
+Print Assumptions row0_SIS_compact_effective_degree_from_graph.
 
 Theorem row0_SIR_compact_pairwise_from_graph :
   forall g rq sv, wf_ugraph g = true -> wf_req g true rq = true -> solver_ok sv ->
